@@ -2620,11 +2620,16 @@ class RockRidge:
 
         if px_record_length == 44 or sf_record_length == 21 or has_es_record or er_id == EXT_ID_112:
             self.rr_version = '1.12'
+        elif continuation and self._initialized and self.rr_version == '1.12':
+            # The entries in the Directory Record already told us that this is
+            # 1.12; the lack of evidence in the Continuation Entry must not
+            # downgrade that.
+            pass
         else:
             # Not 1.12, so either 1.09 or 1.10.
             if sf_record_length == 12:
                 self.rr_version = '1.10'
-            else:
+            elif not (continuation and self._initialized and self.rr_version == '1.10'):
                 self.rr_version = '1.09'
 
         namelist = [nm.posix_name for nm in self.dr_entries.nm_records]
